@@ -207,6 +207,19 @@ def networks(cls, g, shapes, rng, frozen):
                 H.add_edge((mm[: (len(mm) + 1) // 2], mm[(len(mm) + 1) // 2:] or mm[:1]))
         if rng.random() < 0.6:  # also networks without any network attribute
             H["wt"] = [7]
+        if rng.random() < 0.5:  # a removal history: the id counter is ahead of the ids in use
+            try:
+                if cls == "SC":
+                    H.add_simplex([g.node(5), g.node(6)])
+                    H.remove_simplex_id(list(H.edges)[-1])
+                elif cls == "DH":
+                    H.add_edge(([g.node(5)], [g.node(6)]))
+                    H.remove_edge(list(H.edges)[-1])
+                else:
+                    H.add_edge([g.node(5), g.node(6)])
+                    H.remove_edge(list(H.edges)[-1])
+            except Exception:  # noqa: BLE001
+                pass
         if frozen:
             H.freeze()
         outs.append(H)
